@@ -121,7 +121,13 @@ partial def illTyped (Γ : Env) : Expr → List String
     illTyped Γ e ++ (if (typeOf Γ (.member e f)).isNone then ["no-member:" ++ f] else [])
   | .index e i =>
     let isCat := match e with | .concat _ _ => true | .cat1 _ => true | .repl _ _ => true | _ => false
+    let oor : Bool := match constVal i, typeOf Γ e with          -- a constant index outside the declared range
+      | some iv, some ⟨_, d :: _⟩ => decide (iv ≥ d)
+      | some iv, some ⟨.arr n _, []⟩ => decide (iv ≥ n)
+      | some iv, some ⟨.vec w, []⟩ => decide (iv ≥ w)
+      | _, _ => false
     illTyped Γ e ++ illTyped Γ i ++ (if !isCat && (typeOf Γ (.index e i)).isNone then ["bad-index"] else [])
+      ++ (if oor then ["index-out-of-range"] else [])
   | .range e h l =>
     let isCat := match e with | .concat _ _ => true | .cat1 _ => true | .repl _ _ => true | _ => false
     illTyped Γ e ++ (if (constVal h).isNone || (constVal l).isNone then ["non-constant-range"] else [])
